@@ -6,13 +6,16 @@
 (* structural laws of a tiling, and emits every case for replay against the interpreter.     *)
 EXTENDS MechConcat, TLC, Json
 
-CONSTANTS MaxDim,      \* results up to MaxDim x MaxDim, every composition
+CONSTANTS Dims,        \* result shapes <<R, C>> (R, C <= 4) tiled by every composition of R and of C
+          MutDim,      \* near-misses are derived from the tilings of results up to MutDim x MutDim
           BigShapes,   \* larger ("dynamic") results <<R, C>> ...
           BigHParts,   \* ... tiled by at most this many rows
           BigWParts    \* ... of at most this many blocks
 
 VARIABLE cs
 
+DimsQuick == {<<r, c>> : r \in 1..3, c \in 1..3} \cup {<<1, 4>>, <<2, 4>>, <<4, 1>>, <<4, 2>>}
+DimsThorough == {<<r, c>> : r \in 1..4, c \in 1..4}
 NoBig == {}
 BigThorough == {<<5, 6>>, <<9, 2>>, <<2, 9>>, <<1, 7>>, <<7, 1>>}
 
@@ -29,7 +32,7 @@ TilingsOf(hs, wcomps) ==
 
 Dummy == [stage |-> 0, hs |-> <<>>, C |-> 0, wp |-> 0, rows |-> <<>>]
 Partials ==
-       UNION {{[stage |-> 1, hs |-> h, C |-> c, wp |-> 4, rows |-> <<>>] : h \in Comps(r, 4), c \in 1..MaxDim} : r \in 1..MaxDim}
+       UNION {{[stage |-> 1, hs |-> h, C |-> sh[2], wp |-> 4, rows |-> <<>>] : h \in Comps(sh[1], 4)} : sh \in Dims}
   \cup UNION {{[stage |-> 1, hs |-> h, C |-> sh[2], wp |-> BigWParts, rows |-> <<>>] : h \in Comps(sh[1], BigHParts)} : sh \in BigShapes}
 Tilings(k) ==
   {[stage |-> 2, hs |-> <<>>, C |-> 0, wp |-> 0, rows |-> t] : t \in TilingsOf(k.hs, Comps(k.C, k.wp))}
@@ -50,10 +53,16 @@ Mutants(k) ==
   UNION {UNION {{[stage |-> 3, hs |-> <<>>, C |-> 0, wp |-> 0, rows |-> Mutate(k.rows, i, j, mu)]
                    : mu \in Mutations(k.rows, i, j)} : j \in 1..Len(k.rows[i])} : i \in 1..Len(k.rows)}
 
+RECURSIVE LayHeight(_, _), RowW(_, _)
+LayHeight(lay, i) == IF i = 0 THEN 0 ELSE LayHeight(lay, i - 1) + lay[i][1][1]
+RowW(row, j) == IF j = 0 THEN 0 ELSE RowW(row, j - 1) + row[j][2]
+LayH(lay) == LayHeight(lay, Len(lay))
+LayW(lay) == RowW(lay[1], Len(lay[1]))
+
 Init == cs = Dummy
 Next == \/ cs.stage = 0 /\ cs' \in Partials
         \/ cs.stage = 1 /\ cs' \in Tilings(cs)
-        \/ cs.stage = 2 /\ cs' \in Mutants(cs)
+        \/ cs.stage = 2 /\ LayH(cs.rows) <= MutDim /\ LayW(cs.rows) <= MutDim /\ cs' \in Mutants(cs)
 Spec == Init /\ [][Next]_cs
 Done == cs.stage \in {2, 3}
 
